@@ -32,7 +32,7 @@ RULE = (
 ASSUMPTIONS = [
     "URLs are ASCII; paths/queries use unreserved, sub-delim and percent-escape characters only (no ';' parameters, no '#' fragments)",
     "short reads are part of do_POST's contract (it loops on the remaining size); they are injected through the handler's rfile",
-    "bodies are valid UTF-8; > 10 MiB bodies only in the thorough tier",
+    "bodies are valid UTF-8; one > 10 MiB body in the quick tier, nine in the thorough tier",
     "an empty query ('http://h/p?') counts as no query",
 ]
 EXHAUSTIVE = ["every 2- and 3-way split of short multi-byte bodies (sub-checks 'server-splits' and 'client-splits')"]
@@ -479,11 +479,13 @@ def server_split_cases(tier):
         if tier == "thorough" or len(t) == 1:
             for i, j in itertools.combinations(range(1, n), 2):
                 yield {"text": t, "sizes": [i, j - i]}
+    # above the 10 MiB server read size, multi-byte characters across the boundary (one body in the quick tier)
+    yield {"big": "€", "offset": 1}
     if tier == "thorough":
-        # above the 10 MiB server read size, multi-byte characters across the boundary
         for ch in ("é", "€", "😀"):
             for off in (0, 1, 2):
-                yield {"big": ch, "offset": off}
+                if (ch, off) != ("€", 1):
+                    yield {"big": ch, "offset": off}
 
 
 def oracle_server_split(case):
@@ -760,7 +762,7 @@ SUBS = [
         what="every kind of reply do_POST emits (results, faults, empty notification reply, batch, the 500 reply for bodies that are not UTF-8, missing/invalid/overstated Content-Length, a raising dispatcher) x configured content types: exact Content-Length, configured Content-Type"),
     Sub("server-splits", oracle_server_split, enumerate=server_split_cases, shards={"quick": 4, "thorough": 8},
         time_cap={"quick": 100, "thorough": 1500},
-        what="every split of short multi-byte request bodies (+ bodies above 10 MiB in the thorough tier)"),
+        what="every split of short multi-byte request bodies (+ one body above 10 MiB; nine in the thorough tier)"),
     Sub("server-concurrent", oracle_server_concurrent, enumerate=server_concurrent_cases, shards={"quick": 4, "thorough": 4},
         what="two request handlers reading their bodies concurrently (deterministic scheduler, single-preemption sweep)"),
     Sub("cgi", oracle_cgi, strategy=lambda tier: cgi_cases(),
